@@ -423,4 +423,9 @@ func checkC09(c *Ctx, r *Report) {
 		}
 		r.Check(ok, c.FnName(s.Parent)+"|serialised before send", s.Send.Pos(), "SerializeLayers precedes the transmission on every path", "a path reaches the transmission without the packet having been serialised in this operation: whatever the shared buffer holds — possibly an in-session datagram of a session opened from this connection — is sent again")
 	}
+
+	// ---- rule 6: one Transport.Send is one datagram. The counter rules above count calls of
+	// Send; they say something about datagrams only if the transport writes the packet it is
+	// given exactly once (rule shared with C11, C10)
+	checkOneWriteOneRead(c, r)
 }
